@@ -76,6 +76,15 @@ fn repair(tree: &A, target_idx: usize, what: &str, fails: &mut Vec<Fail>, st: &m
             return;
         }
         Ok(Err(e)) => {
+            // a document / fragment without any element has nothing to repair; whether the call answers Ok or an
+            // error is not pinned by the statement as long as serialisation works
+            fn has_element(a: &A) -> bool {
+                a.k == K::Elem || a.ch.iter().any(has_element)
+            }
+            if !has_element(tree) && matches!(catch(|| xot.to_string(root)), Ok(Ok(_))) {
+                st.bump("repair_refused_on_element_less_tree");
+                return;
+            }
             fails.push(Fail::new(format!("create_missing_prefixes-err|{}|{}", what, err_class(&format!("{:?}", e))), format!("{}: {:?}", tree.show(), e)));
             return;
         }
